@@ -336,7 +336,7 @@ func sbOpN(o SBOp) int {
 	switch o.Ch {
 	case 3:
 		return clamp(o.N, 1, 300)
-	case 4:
+	case 4, 5:
 		return 0
 	}
 	return clamp(o.N, 0, 200000)
@@ -345,6 +345,9 @@ func sbOpN(o SBOp) int {
 func sbOpWireLen(p *Plan, o SBOp) int {
 	if o.Ch == 4 {
 		return 4
+	}
+	if o.Ch == 5 {
+		return 5
 	}
 	n, m := sbOpN(o), sbMax(p)
 	frames := (n + m - 1) / m
@@ -363,6 +366,11 @@ func boundaries(p *Plan) (starts, hends []int, total int) {
 			if o.Ch == 4 {
 				starts, hends = append(starts, total), append(hends, total+4)
 				total += 4
+				continue
+			}
+			if o.Ch == 5 {
+				starts, hends = append(starts, total), append(hends, total+4)
+				total += 5
 				continue
 			}
 			for n := sbOpN(o); n > 0; n -= m {
@@ -553,6 +561,18 @@ func (r *run) buildSB() (stream, pack, prog []byte, ok bool) {
 			w.WriteString(h)
 			r.segs = append(r.segs, seg{start: start, hend: start + 4, end: start + 4, kind: kBad})
 			r.logf("inject bad header")
+			continue
+		}
+		if o.Ch == 5 {
+			kch := byte(1 + ((o.N-1)%2+2)%2)
+			if _, err := pktline.Write(&w, []byte{kch}); err != nil {
+				r.out.Fail("C34|write|unexpected-error|none", "Write(keepalive): %v", err)
+				return nil, nil, nil, false
+			}
+			b := w.Bytes()
+			r.segs = append(r.segs, seg{start: start, hend: start + 4, end: start + 5, kind: kData, payload: b[start+4 : start+5 : start+5], ch: int(kch)})
+			r.out.Probe("sideband-empty-frame")
+			r.logf("keepalive frame on channel %d", kch)
 			continue
 		}
 		n := sbOpN(o)
@@ -1520,6 +1540,12 @@ func genPlan(r *core.Rand, tier string) any {
 			case x >= 96:
 				o.Ch = 4
 				o.N = r.Intn(len(badHeaders))
+			}
+			if (o.Ch == 1 || o.Ch == 2) && r.Chance(1, 12) {
+				// a frame that is only the channel byte: git's upload-pack keepalive ("0005\x01"), which go-git's
+				// own packet writer produces for a one-byte payload; the Muxer never emits one
+				o.N = o.Ch
+				o.Ch = 5
 			}
 			if o.Ch == 1 || o.Ch == 2 {
 				y := r.Intn(100)
